@@ -9,8 +9,17 @@ import numpy as np
 import odl
 
 
+_CACHE = {}
+
+
 def build(name):
-    """Construct a space from its registry name."""
+    """Space by registry name (cached: array-weighted spaces compare by identity of the array)."""
+    if name not in _CACHE:
+        _CACHE[name] = _build(name)
+    return _CACHE[name]
+
+
+def _build(name):
     if name == 'rn1':
         return odl.rn(1)
     if name == 'rn2':
@@ -78,20 +87,33 @@ def is_pspace(space):
     return isinstance(space, odl.ProductSpace)
 
 
+def is_field(space):
+    return isinstance(space, odl.set.sets.Field)
+
+
 def flat_size(space):
+    if is_field(space):
+        return 1
     if is_pspace(space):
         return sum(flat_size(s) for s in space)
     return int(space.size)
 
 
 def dtype_of(space):
+    if is_field(space):
+        return np.dtype(complex) if isinstance(space, odl.ComplexNumbers) else np.dtype(float)
     if is_pspace(space):
-        return dtype_of(space[0])
+        if len(space) == 0:
+            return np.dtype(float)
+        dts = [dtype_of(s) for s in space]
+        return np.result_type(*dts)
     return np.dtype(space.dtype)
 
 
 def to_flat(x):
     """Flat copy of the entries of an element (C order, components concatenated)."""
+    if not hasattr(x, 'space'):
+        return np.array([x]).ravel()          # field element (Python / NumPy scalar)
     if is_pspace(x.space):
         parts = [to_flat(xi) for xi in x]
         return np.concatenate(parts) if parts else np.zeros(0)
@@ -100,6 +122,10 @@ def to_flat(x):
 
 def from_flat(space, a):
     a = np.asarray(a)
+    if is_field(space):
+        v = a.ravel()[0]
+        return space.element(complex(v) if isinstance(space, odl.ComplexNumbers)
+                             else float(np.real(v)))
     if is_pspace(space):
         parts, pos = [], 0
         for s in space:
@@ -143,7 +169,10 @@ def gram(space):
     G = np.zeros((n, n), dtype=complex if is_complex(space) else float)
     for i in range(n):
         for j in range(n):
-            G[i, j] = space.inner(es[j], es[i])
+            if is_field(space):
+                G[i, j] = es[j] * np.conj(es[i])
+            else:
+                G[i, j] = space.inner(es[j], es[i])
     return G
 
 
